@@ -222,6 +222,13 @@ class SpawnProcess(multiprocessing.context.SpawnProcess):
                 error = OSError(exitcode, msg)
                 error.__cause__ = exc
 
+        # Before telling the logger thread to stop, wait for the child to exit.
+        # The child may still be flushing log records (those emitted shortly before
+        # the end of the target) into the queue's pipe after it has delivered the
+        # outcome. If the logger thread stopped reading now, these records would be
+        # lost, and if there are more of them than the pipe can hold, the child
+        # would block in the flush forever and never exit.
+        multiprocessing.connection.wait([self.sentinel])
         self._logger_queue_.put(None)
         self._result_and_error_.close()
         self._result_and_error_ = None
